@@ -1125,6 +1125,28 @@ func elideMany(args []string) error {
 			fmt.Printf("production\t%q\t%s\n", in, res)
 		}
 	}
+	// two parsers built from one caller-owned slice of names (with spare capacity), each adding a further Elide of its own: the
+	// first parser keeps eliding what IT was told to
+	{
+		lx := lexer.MustSimple([]lexer.SimpleRule{{Name: "Ident", Pattern: `[a-z]+`}, {Name: "Punct", Pattern: `[()]`}, {Name: "Other", Pattern: `!`}, {Name: "Comment", Pattern: `#[a-z]*#`}, {Name: "Whitespace", Pattern: `\s+`}})
+		names := make([]string, 1, 8)
+		names[0] = "Whitespace"
+		p1, err := participle.Build[manyG](participle.Lexer(lx), participle.Elide(names...), participle.Elide("Comment"))
+		if err != nil {
+			return err
+		}
+		if _, err := participle.Build[manyG](participle.Lexer(lx), participle.Elide(names...), participle.Elide("Other")); err != nil {
+			return err
+		}
+		for _, in := range []string{"(a b c)", "( a  b\tc )", " (a #x# b c) ", "(a\nb#y#c)#z#", "#q#(a b c)"} {
+			v, err := p1.ParseString("", in)
+			res := "err"
+			if err == nil {
+				res = strings.Join(v.Words, ",")
+			}
+			fmt.Printf("shared-names\t%q\t%s\n", in, res)
+		}
+	}
 	for _, nrules := range []int{5, 62, 63, 64, 65, 70, 130} {
 		var rules []lexer.SimpleRule
 		for i := 0; i < nrules; i++ {
